@@ -1086,8 +1086,8 @@ func (ex *Exec) atReturn(st *State, ret *ssa.Return) {
 	}
 	if ex.fc != nil {
 		for _, g := range ex.fc.Ghosts {
-			name, _ := ghostNameSort(g.Name)
-			ctx.ghosts = appendGhost(ctx.ghosts, name, ex.spec(st, g.Expr, ctx))
+			name, gsort := ghostNameSort(g.Name)
+			ctx.ghosts = appendGhost(ctx.ghosts, name, ex.ghostValue(st, g, gsort, ctx))
 		}
 		for _, e := range ex.fc.Ensures {
 			g := ex.specBool(st, e.Expr, ctx)
@@ -1110,6 +1110,22 @@ func (ex *Exec) atReturn(st *State, ret *ssa.Return) {
 		}
 	}
 	ex.frameObligations(st, ex.entry, as, "frame", site, ret, nil)
+}
+
+// ghostValue evaluates a ghost output at a return; where its defining
+// expression has no meaning on this path (a local that was never declared, a
+// callee that was not called) the ghost is an arbitrary value of its sort.
+func (ex *Exec) ghostValue(st *State, g LetDef, gsort string, ctx *specCtx) (sv SV) {
+	defer func() {
+		if r := recover(); r != nil {
+			if _, ok := r.(unsupported); ok && gsort != "" {
+				sv = Scalar(ex.fresh("ghost_undefined", sortByName(gsort)))
+				return
+			}
+			panic(r)
+		}
+	}()
+	return ex.spec(st, g.Expr, ctx)
 }
 
 type ghostVal struct {
